@@ -295,3 +295,24 @@ M("c13-api-drops-watches", "C13", "C13.API", (DEEP, "tp_id = self.config.tracepo
 M("c13-unregister-wrong-id", "C13", "C13.API", (DEEP, "        self.__tpServ.remove_custom(self.__id)", "        self.__tpServ.remove_custom(str(self.__id).lower() + \"\")"))
 M("c13-keyed-by-other", "C13", "C13.MATCH", (TPCS, "        self._custom_ids[tp_id] = config\n", "        self._custom_ids[config.id] = config\n"))
 R("c13-return-trigger-object-id", "C13", (TPCS, "        tp_id = str(uuid.uuid4())\n", "        tp_id = uuid.uuid4().hex\n"))
+
+# ------------------------------------------------------------------ C11
+M("c11-method-name-ignored", "C11", "C11.TRIG", (TRG, "    stage_ = METHOD_START if METHOD_NAME in args else LINE_START\n", "    stage_ = LINE_START\n"))
+M("c11-span-method-overrides-stage", "C11", "C11.TRIG", (TRG, "    if SPAN in args and args[SPAN] == METHOD:\n        stage_ = METHOD_START\n\n    if STAGE in args:\n        stage_ = args[STAGE]\n", "    if STAGE in args:\n        stage_ = args[STAGE]\n\n    if SPAN in args and args[SPAN] == METHOD:\n        stage_ = METHOD_START\n"))
+M("c11-unknown-stage-defaults-line", "C11", "C11.TRIG", (TRG, "    else:\n        return None\n\n    snap_action", "    else:\n        location = LineLocation(path, line_no, position)\n\n    snap_action"))
+M("c11-method-location-uses-line", "C11", "C11.TRIG", (TRG, "location = FunctionLocation(path, args.get(METHOD_NAME, None), position)", "location = FunctionLocation(path, args.get(SPAN, None), position)"))
+M("c11-drop-span-action", "C11", "C11.TRIG", (TRG, "for action in [snap_action, log_action, metric_action, span_action] if", "for action in [snap_action, log_action, metric_action] if"))
+M("c11-capture-is-end", "C11", "C11.STAGE", (TRG, "            if stage_ in [LINE_CAPTURE, METHOD_CAPTURE]:\n                return Location.Position.CAPTURE", "            if stage_ in [LINE_CAPTURE, METHOD_CAPTURE]:\n                return Location.Position.END"))
+M("c11-log-also-when-collecting", "C11", "C11.BUILD", (TRG, "    if SNAPSHOT not in args or args[SNAPSHOT] != NO_COLLECT:\n        return None\n", ""))
+M("c11-snapshot-when-no-collect", "C11", "C11.BUILD", (TRG, "        if args[SNAPSHOT] == NO_COLLECT:\n            return None\n", "        if args[SNAPSHOT] == NO_COLLECT and LOG_MSG in args:\n            return None\n"))
+M("c11-metric-empty-list", "C11", "C11.BUILD", (TRG, "    if metrics is None or len(metrics) == 0:\n        return None\n", "    if metrics is None:\n        return None\n"))
+M("c11-span-default-period", "C11", "C11.SIB", (TRG, "        SPAN: args[SPAN],\n        FIRE_COUNT: args.get(FIRE_COUNT, '1'),\n        FIRE_PERIOD: args.get(FIRE_PERIOD, '1000'),", "        SPAN: args[SPAN],\n        FIRE_COUNT: args.get(FIRE_COUNT, '1'),\n        FIRE_PERIOD: args.get(FIRE_PERIOD, '0'),"))
+M("c11-metric-no-condition", "C11", "C11.SIB", (TRG, "    condition = args[CONDITION] if CONDITION in args else None\n    return LocationAction(tp_id, condition, {\n        'metrics': metrics,", "    condition = None\n    return LocationAction(tp_id, condition, {\n        'metrics': metrics,"))
+M("c11-log-fire-count-from-period", "C11", "C11.SIB", (TRG, "        LOG_MSG: args[LOG_MSG],\n        FIRE_COUNT: args.get(FIRE_COUNT, '1'),", "        LOG_MSG: args[LOG_MSG],\n        FIRE_COUNT: args.get(FIRE_PERIOD, '1'),"))
+M("c11-stage-dropped", "C11", "C11.KEYS", (TRG, "    if STAGE in args:\n        config[STAGE] = args[STAGE]\n", ""))
+M("c11-frame-type-key", "C11", "C11.KEYS", (TRG, "        FRAME_TYPE: args.get(FRAME_TYPE, SINGLE_FRAME_TYPE),\n", "        STACK: args.get(FRAME_TYPE, SINGLE_FRAME_TYPE),\n"))
+M("c11-none-trigger-used", "C11", "C11.ISOLATE", (GRPC, "            if trigger is None:\n                logging.warning(\"Cannot interpret tracepoint %s: %s\", r.ID, dict(r.args))\n                continue\n", ""))
+M("c11-guard-around-loop", "C11", "C11.ISOLATE", (TPCS, "        if config is None:\n            # we cannot interpret this tracepoint, so there is nothing to install (or to remove later)\n            logging.warning(\"Cannot interpret tracepoint %s#%s: %s\", path, line, args)\n            return tp_id\n", ""))
+M("c11-metric-help-unit-swapped", "C11", "C11.METRIC", (GRPC, "m.expression, m.namespace, m.help, m.unit)", "m.expression, m.namespace, m.unit, m.help)"))
+M("c11-watches-as-args", "C11", "C11.METRIC", (GRPC, "build_trigger(r.ID, r.path, r.line_number, dict(r.args), [w for w in r.watches],", "build_trigger(r.ID, r.path, r.line_number, dict(r.args), [],"))
+R("c11-stage-get", "C11", (TRG, "    if STAGE in args:\n        stage_ = args[STAGE]\n\n    position", "    if STAGE in args:\n        explicit = args[STAGE]\n        stage_ = explicit\n\n    position"))
